@@ -54,7 +54,7 @@ Qed.
 Lemma eventfd_KOn : forall k b,
   KOn (match snd (k_eventfd k b) with inl fd => [fd] | inr _ => [] end) k (fst (k_eventfd k b)).
 Proof.
-  intros k b. unfold k_eventfd. destruct (emfile _); [apply KO_refl|]. destruct (_ || _); [apply KO_refl|].
+  intros k b. unfold k_eventfd. destruct (emfile _); [apply KO_refl|]. destruct (_ && _); [apply KO_refl|].
   pose proof (alloc_KOn k K_EVENTFD) as A. destruct (k_alloc k K_EVENTFD) as [fd k1]. exact A.
 Qed.
 
@@ -176,9 +176,9 @@ Proof.
   destruct (K fd L ltac:(rewrite O'; discriminate)) as [A|[]]. contradiction.
 Qed.
 
-Lemma raw_unregister_O : forall s j, OD s -> (efd_raw s <> 0 -> rw_wfd s j = rw_rfd s j) -> ARes OD (raw_unregister s j).
+Lemma raw_unregister_O : forall s j, OD s -> ARes OD (raw_unregister s j).
 Proof.
-  intros s j D EV. unfold raw_unregister.
+  intros s j D. unfold raw_unregister.
   pose proof (fd_unregister_OF s (RAW_KEY j)) as Q.
   pose proof (CorePhase2K1Fd.fd_unregister_KF (fdnum (fdt s (RAW_KEY j)) + 1) s (RAW_KEY j) ltac:(lia)) as QK.
   destruct (fd_unregister s (RAW_KEY j)) as [s1|s1]; cbn [bind ARes] in *; [|exact I]. cbv zeta.
@@ -186,13 +186,15 @@ Proof.
   destruct Q as [K1 E1]. pose proof E1 as E1'. unfold owners in E1'. inversion E1' as [[F1 F2 F3 F4 F5 F6 F7 F8 F9]].
   set (s2 := do_close s1 (rw_rfd s1 j)).
   destruct (do_close_OF s1 (rw_rfd s1 j)) as [A2 C2]. fold s2 in A2, C2.
-  set (s3 := if efd_raw s2 =? 0 then do_close s2 (rw_wfd s2 j) else s2).
-  assert (A3 : OF s2 s3 /\ (efd_raw s = 0 -> k_open (kern s3) (rw_wfd s j) = None)).
-  { unfold s3. assert (ER2 : efd_raw s2 = efd_raw s) by (unfold s2; rewrite do_close_er; exact ER1). rewrite ER2.
-    destruct (Z.eqb_spec (efd_raw s) 0) as [Z0|NZ]; [|split; [apply OF_refl|contradiction]].
+  set (s3 := if raw_is_pipe s2 j then do_close s2 (rw_wfd s2 j) else s2).
+  assert (RW2 : rw_rfd s2 = rw_rfd s /\ rw_wfd s2 = rw_wfd s).
+  { destruct A2 as [_ E2]. unfold owners in E2. inversion E2 as [[G1 G2 G3 G4 G5 G6 G7 G8 G9]]. split; congruence. }
+  assert (RP2 : raw_is_pipe s2 j = raw_is_pipe s j) by (unfold raw_is_pipe; destruct RW2 as [-> ->]; reflexivity).
+  assert (A3 : OF s2 s3 /\ (raw_is_pipe s j = true -> k_open (kern s3) (rw_wfd s j) = None)).
+  { unfold s3. rewrite RP2.
+    destruct (raw_is_pipe s j); [|split; [apply OF_refl|discriminate]].
     destruct (do_close_OF s2 (rw_wfd s2 j)) as [B C]. split; [exact B|]. intros _.
-    replace (rw_wfd s j) with (rw_wfd s2 j); [exact C|].
-    destruct A2 as [_ E2]. unfold owners in E2. inversion E2 as [[G1 G2 G3 G4 G5 G6 G7 G8 G9]]. rewrite G6, F6. reflexivity. }
+    replace (rw_wfd s j) with (rw_wfd s2 j); [exact C|apply (f_equal (fun f => f j) (proj2 RW2))]. }
   destruct A3 as [A3 C3].
   assert (A : OF s s3) by (eapply OF_trans; [constructor; eassumption|]; eapply OF_trans; eassumption).
   destruct A as [K E]. unfold owners in E. inversion E as [[H1 H2 H3 H4 H5 H6 H7 H8 H9]].
@@ -203,8 +205,9 @@ Proof.
   - destruct (Z.eq_dec j' j) as [->|NJ].
     + right. destruct H as [H|H].
       * rewrite H. apply (KO_none (kern s2)); [apply (of_k _ _ A3)|rewrite <- H; exact L|rewrite <- F5; exact C2].
-      * destruct (Z.eq_dec (efd_raw s) 0) as [Z0|NZ]; [rewrite H; apply C3; exact Z0|].
-        rewrite H, (EV NZ). apply (KO_none (kern s2)); [apply (of_k _ _ A3)|rewrite <- (EV NZ), <- H; exact L|rewrite <- F5; exact C2].
+      * destruct (raw_is_pipe s j) eqn:RP; [rewrite H; apply C3; reflexivity|].
+        assert (EV : rw_wfd s j = rw_rfd s j) by (unfold raw_is_pipe in RP; apply negb_false_iff in RP; apply Z.eqb_eq in RP; exact RP).
+        rewrite H, EV. apply (KO_none (kern s2)); [apply (of_k _ _ A3)|rewrite <- EV, <- H; exact L|rewrite <- F5; exact C2].
     + left. right; right; left. exists j'. rewrite upd_other by exact NJ. rewrite H4, H5, H6. tauto.
   - left. right; right; right. rewrite H7, H8, H9. exact H.
 Qed.
@@ -213,7 +216,7 @@ Lemma raw_post_OF : forall s j, OF s (raw_post s j).
 Proof.
   intros s j. unfold raw_post.
   match goal with |- context [let '(k1, _) := ?X in _] => assert (K : KO (kern s) (fst X)); [|destruct X as [k1 x]] end.
-  { destruct (efd_raw _ =? 0); apply KO_write. }
+  { destruct (raw_is_pipe _ _); apply KO_write. }
   cbn [fst] in K. apply OF_kern. exact K.
 Qed.
 
@@ -349,16 +352,14 @@ Proof.
   - apply (ST (R s0)). cbn [ARes]. split; [exact D0|reflexivity].
 Qed.
 
-Lemma event_unregister_O : forall s j, OD s ->
-  (use_raw s = true -> ev_count s = 1 -> efd_raw s <> 0 -> rw_wfd s KICK_RAW = rw_rfd s KICK_RAW) ->
-  ARes OD (event_unregister s j).
+Lemma event_unregister_O : forall s j, OD s -> ARes OD (event_unregister s j).
 Proof.
-  intros s j D EV. unfold event_unregister. cbv zeta.
+  intros s j D. unfold event_unregister. cbv zeta.
   set (s0 := set_ev _ _ _ _). assert (D0 : OD s0) by (eapply OD_OF; [exact D|unfold s0; of_plain]).
   eapply ARes_bind with (P := OD).
   - destruct (Z.eqb_spec (ev_count s0) 0) as [Z0|NZ]; [|exact D0].
     destruct (use_raw s0) eqn:UR; [|apply event_rx_off_O; exact D0].
-    apply raw_unregister_O; [exact D0|]. apply EV; [exact UR|]. cbn in Z0. lia.
+    apply raw_unregister_O; exact D0.
   - cbn beta. intros s1 Q. cbn [ARes]. eapply OD_OF; [exact Q|of_plain].
 Qed.
 
@@ -367,7 +368,6 @@ Qed.
 Record OH (s : core) : Prop := {
   oh_ref : 0 <= active_ref s;
   oh_kick : ev_count s = 0 -> rw_reg s KICK_RAW = false;
-  oh_evfd : forall j, rw_reg s j = true -> efd_raw s <> 0 -> rw_wfd s j = rw_rfd s j;
   oh_evk : use_raw s = true -> 1 <= ev_count s -> rw_reg s KICK_RAW = true }.
 
 Lemma OD_after : forall s e r, (OD (emit s e) -> ARes OD r) -> OD s -> ARes OD r.
@@ -426,9 +426,7 @@ Proof.
     destruct (event_register _ j) as [r failed]. cbn [fst] in Q.
     apply (OD_res r (fun _ => TRes 1 j (if failed then -1 else 0))). exact Q.
   - (* AEvUnreg *) destruct (ev_reg s j) eqn:ER; [|exact D].
-    apply event_unregister_O; [eapply OD_OF; [exact D|apply OF_emit]|].
-    cbn [use_raw ev_count efd_raw rw_rfd rw_wfd emit set_trace]. intros U C1 NZ.
-    apply (oh_evfd _ H KICK_RAW); [apply (oh_evk _ H U); lia|exact NZ].
+    apply event_unregister_O; eapply OD_OF; [exact D|apply OF_emit].
   - dm; cbn [ARes]; [|exact D]. eapply OD_OF; [exact D|]. apply OF_plain; unfold event_post; repeat dm; try reflexivity;
       unfold task_register; cbv zeta; repeat dm; reflexivity.
   - dm; cbn [ARes]; [exact D|eapply OD_OF; [exact D|of_plain]].
@@ -438,7 +436,7 @@ Proof.
     destruct (raw_register _ j) as [r failed]. cbn [fst] in Q.
     apply (OD_res r (fun _ => TRes 2 j (if failed then -1 else 0))). exact Q.
   - (* ARwUnreg *) destruct (rw_reg s j) eqn:RG; [|exact D].
-    apply raw_unregister_O; [eapply OD_OF; [exact D|apply OF_emit]|]. apply (oh_evfd _ H j RG).
+    apply raw_unregister_O; eapply OD_OF; [exact D|apply OF_emit].
   - dm; cbn [ARes]; [|exact D]. eapply OD_OF; [exact D|]. eapply OF_trans; [apply (OF_emit s (TAct (ARwPost j)))|apply raw_post_OF].
   - dm; cbn [ARes]; [exact D|eapply OD_OF; [exact D|of_plain]].
   - cbn [ARes]. eapply OD_OF; [exact D|of_plain].
